@@ -70,6 +70,17 @@ fn explore(run: &mut Run, family: u8) {
         equality(run, &gs[1]);
     } else {
         run.seq("OUTCOME TABLE (2 colours x 7 win reasons + 8 draw reasons) x 3 filters", |ctx| outcome_table(ctx));
+        // position graphs of shuffle games: distinct identities must not share a hash
+        let shuffles: [(&str, &str, &[&str]); 3] = [
+            ("castling-rights shuffle", "rn2k2r/8/8/8/8/8/8/RN2K2R w KQkq - 0 1", &["a1a2", "a2a1", "h1g1", "g1h1", "a8a7", "a7a8", "h8g8", "g8h8", "e1e2", "e2e1", "e8e7", "e7e8", "b1c3", "c3b1", "b8c6", "c6b8"]),
+            ("en-passant look-alikes", "4k3/3p4/8/4P3/4p3/8/3P4/4K3 w - - 0 1", &["d2d4", "d2d3", "d3d4", "d7d5", "d7d6", "d6d5", "e1f1", "f1e1", "e8f8", "f8e8"]),
+            ("side to move look-alikes (triangulation)", "8/8/4k3/8/8/4K3/8/8 w - - 0 1", &["e3d3", "d3d2", "d2e3", "e3e2", "e2e3", "e6d6", "d6e6", "e6e7", "e7e6"]),
+        ];
+        run.par_shards("HASHCOLL: position graphs of 3 shuffle games (distinct identities vs Zobrist hash, witness game replayed on a chain)", shuffles.len(), |ctx, i| {
+            let (name, fen, alpha) = shuffles[i];
+            let start = crate::model::text::read_fen(fen).expect("shuffle fen");
+            hash_collisions(ctx, name, &start, alpha, 200_000);
+        });
     }
 }
 
@@ -173,6 +184,7 @@ pub fn replay13(case: &Value, ctx: &mut Ctx) {
 pub fn replay14(case: &Value, ctx: &mut Ctx) {
     match case["kind"].as_str() {
         Some("chain") => replay_path(case, ctx, 14),
+        Some("collision") => replay_collision(case, ctx),
         Some("outcome_table") => {
             let mut c = Ctx::new();
             c.vcap = 1000;
